@@ -16,6 +16,8 @@ import sys
 from pathlib import Path
 
 VERIF = Path(__file__).resolve().parents[1]
+sys.path.insert(0, str(VERIF))
+from translate.resolve import Flow      # noqa: E402
 REPO = Path(os.environ.get('HOMONIM_REPO', '/repo'))
 OUT = VERIF / 'coq' / 'gen' / 'Blocks.v'
 
@@ -42,12 +44,364 @@ def one_assign(func, target):
     return v[0]
 
 
-class ZExpr:
+def U(n):
+    return ast.unparse(n)
+
+
+def canon(t):
+    """spelling differences that mean the same"""
+    return t.replace(".astype('int')", '.astype(int)').replace('.astype("int")', '.astype(int)')
+
+
+def guards(f, fl, stmt):
+    return fl.guards(stmt)
+
+
+def module_inliner(tree, cls=None, keep=()):
+    """look through calls of simple helper functions of the module (and methods of class `cls`)"""
+    methods, funcs = {}, {}
+    for node in tree.body:
+        if isinstance(node, ast.ClassDef) and node.name == cls:
+            methods = {f.name: f for f in node.body if isinstance(f, ast.FunctionDef)}
+        if isinstance(node, ast.FunctionDef):
+            funcs[node.name] = node
+
+    def simple(g):
+        return not any(isinstance(n, (ast.For, ast.While, ast.Try, ast.Yield, ast.YieldFrom, ast.Lambda)) for n in ast.walk(g))
+
+    def inline(call):
+        fn = call.func
+        if isinstance(fn, ast.Attribute) and isinstance(fn.value, ast.Name) and fn.value.id in ('self', cls) and fn.attr in methods \
+                and fn.attr not in keep and simple(methods[fn.attr]):
+            return methods[fn.attr]
+        if isinstance(fn, ast.Name) and fn.id in funcs and fn.id not in keep and simple(funcs[fn.id]):
+            return funcs[fn.id]
+        return None
+    return inline
+
+
+class ZVec:
+    """a resolved NumPy (row, col) vector expression -> Gallina Z term for one axis (0 = rows, 1 = columns)"""
+
+    def __init__(self, axis, scalars, vectors):
+        self.k = axis
+        self.scalars = scalars        # resolved text -> Coq variable (scalar leaves, given per axis as a pair)
+        self.vectors = vectors        # resolved text -> Coq variable (vector leaves: the same variable name on both axes)
+
+    def tr(self, n):
+        t = canon(U(n))
+        if t in self.vectors:
+            return self.vectors[t]
+        if t in self.scalars:
+            return self.scalars[t][self.k] if isinstance(self.scalars[t], tuple) else self.scalars[t]
+        if isinstance(n, ast.Constant) and isinstance(n.value, int) and not isinstance(n.value, bool):
+            return str(n.value)
+        if isinstance(n, (ast.Tuple, ast.List)) and len(n.elts) == 2:
+            return self.tr(n.elts[self.k])
+        if isinstance(n, ast.Call) and U(n.func) == 'np.array' and len(n.args) == 1 and not n.keywords:
+            return self.tr(n.args[0])
+        if isinstance(n, ast.Call) and isinstance(n.func, ast.Attribute) and n.func.attr == 'astype' and len(n.args) == 1 \
+                and U(n.args[0]) in ("'int'", 'int') and not n.keywords:
+            return self.tr(n.func.value)
+        if isinstance(n, ast.BinOp):
+            op = {ast.Add: '+', ast.Sub: '-', ast.Mult: '*'}.get(type(n.op))
+            if op is None:
+                raise TranslatorError(f'unsupported operator in {t}')
+            return f'({self.tr(n.left)} {op} {self.tr(n.right)})'
+        if isinstance(n, ast.Call) and U(n.func) in ('np.fmax', 'np.fmin', 'np.maximum', 'np.minimum') and len(n.args) == 2 and not n.keywords:
+            return f'(Z.{"max" if U(n.func) in ("np.fmax", "np.maximum") else "min"} {self.tr(n.args[0])} {self.tr(n.args[1])})'
+        if isinstance(n, ast.Call) and U(n.func) in ('np.subtract', 'np.add') and len(n.args) == 2 and not n.keywords:
+            return f'({self.tr(n.args[0])} {"-" if U(n.func) == "np.subtract" else "+"} {self.tr(n.args[1])})'
+        if isinstance(n, ast.Subscript) and isinstance(n.slice, ast.Constant) and n.slice.value in (0, 1):
+            if n.slice.value != self.k:
+                raise TranslatorError(f'component {n.slice.value} used on axis {self.k}: {t}')
+            return self.tr(n.value)
+        raise TranslatorError(f'unsupported expression: {t[:200]}')
+
+
+def window_parts(n):
+    """Window(*A[::-1], *B[::-1]) or Window(col_off, row_off, width, height) -> (corner vector node or pair, shape vector node or pair)"""
+    if not (isinstance(n, ast.Call) and U(n.func) == 'Window' and not n.keywords):
+        return None
+    if len(n.args) == 2 and all(isinstance(a, ast.Starred) and isinstance(a.value, ast.Subscript) and U(a.value.slice) == '::-1' for a in n.args):
+        return n.args[0].value.value, n.args[1].value.value
+    if len(n.args) == 4 and not any(isinstance(a, ast.Starred) for a in n.args):
+        return ast.Tuple(elts=[n.args[1], n.args[0]], ctx=ast.Load()), ast.Tuple(elts=[n.args[3], n.args[2]], ctx=ast.Load())
+    return None
+
+
+def block_pairs_part(rp, out):
+    f = find_func(rp, 'RasterPairReader', 'block_pairs')
+    fl = Flow(f, inline=module_inliner(rp, 'RasterPairReader', keep=('_auto_block_shape', 'block_pairs', 'read', '_assert_open')))
+    ov_p, mem_p = fl.params[1], fl.params[2]
+    # the two BlockPair(...) constructions, by processing grid
+    made = {}
+    for n in ast.walk(f):
+        if isinstance(n, ast.Call) and U(n.func) == 'BlockPair':
+            gs = guards(f, fl, n)
+            grid = None
+            for (t, br) in gs:
+                for g in ('ref', 'src'):
+                    if t == f'self.proc_crs == ProcCrs.{g}':
+                        grid = g if br else ('src' if g == 'ref' else 'ref')
+                    if t == f'self.proc_crs != ProcCrs.{g}':
+                        grid = g if not br else ('src' if g == 'ref' else 'ref')
+            if grid is None or grid in made or n.keywords or len(n.args) != 6:
+                raise TranslatorError(f'block_pairs: unexpected BlockPair construction {U(n)[:120]}')
+            made[grid] = [fl.resolve(a, fl.stmt_of(n)) for a in n.args]
+    if sorted(made) != ['ref', 'src']:
+        raise TranslatorError('block_pairs: one BlockPair per processing grid expected')
+    # BlockPair(band_i, src_in, ref_in, src_out, ref_out, outer): processing-grid windows are ref_* on the reference grid and src_* on the source grid
+    pin, pout, oin, oout = made['ref'][2], made['ref'][4], made['ref'][1], made['ref'][3]
+    same = [ast.dump(x) for x in (pin, pout, oin, oout)] == [ast.dump(x) for x in (made['src'][1], made['src'][3], made['src'][2], made['src'][4])]
+    same = same and ast.dump(made['ref'][0]) == ast.dump(made['src'][0]) and ast.dump(made['ref'][5]) == ast.dump(made['src'][5])
+    out.append(f'Definition gen_block_pair_fields_ok : bool := {"true" if same else "false"}.   (* (band, src_in, ref_in, src_out, ref_out, outer) on both grids *)')
+    # loops: bands outermost, then product(row range, column range)
+    loops = [n for n in ast.walk(f) if isinstance(n, ast.For)]
+    prod = [n for n in loops if isinstance(n.iter, ast.Call) and U(n.iter.func) in ('product', 'itertools.product') and len(n.iter.args) == 2
+            and isinstance(n.target, ast.Tuple) and len(n.target.elts) == 2]
+    band = [(n, n.target) for n in loops if fl.text(n.iter, n) in ('range(len(self._src_bands))', 'range(0, len(self._src_bands))') and isinstance(n.target, ast.Name)]
+    band += [(n, n.target.elts[0]) for n in loops if fl.text(n.iter, n) == 'enumerate(self._src_bands)' and isinstance(n.target, ast.Tuple)
+             and len(n.target.elts) == 2 and isinstance(n.target.elts[0], ast.Name)]
+    if len(prod) != 1 or len(band) != 1:
+        raise TranslatorError('block_pairs: loops over the bands and over product(rows, columns) expected')
+    urow, ucol = (U(e) for e in prod[0].target.elts)
+    ok_order = any(m is prod[0] for m in ast.walk(band[0][0])) and U(made['ref'][0]) == U(band[0][1])
+    out.append(f'Definition gen_rows_outer_bands_outermost : bool := {"true" if ok_order else "false"}.')
+    rngs = [fl.resolve(a, prod[0]) for a in prod[0].iter.args]
+    # the processing window: one name carrying row_off / col_off / height / width
+    wins = {n.value.id for r in rngs for n in ast.walk(r) if isinstance(n, ast.Attribute) and n.attr in ('row_off', 'col_off', 'height', 'width') and isinstance(n.value, ast.Name)}
+    if len(wins) != 1:
+        raise TranslatorError(f'block_pairs: processing window {wins}')
+    W = wins.pop()
+    ov_txt = canon(U(fl.resolve(ast.Name(id=ov_p, ctx=ast.Load()), prod[0])))
+    bs_txts = {canon(U(n)) for r in rngs for n in ast.walk(r) if isinstance(n, ast.Call) and U(n.func) == 'self._auto_block_shape'}
+    if len(bs_txts) != 1 or bs_txts != {f'self._auto_block_shape(max_block_mem={mem_p})'}:
+        raise TranslatorError(f'block_pairs: block shape {bs_txts}')
+    bs_txt = bs_txts.pop()
+    rng = []
+    for k, r in enumerate(rngs):
+        if not (isinstance(r, ast.Call) and U(r.func) == 'range' and len(r.args) == 3):
+            raise TranslatorError('block_pairs: range(start, stop, step) expected')
+        z = ZVec(k, {f'{W}.row_off': ('off', '?'), f'{W}.col_off': ('?', 'off'), f'{W}.height': ('n', '?'), f'{W}.width': ('?', 'n')},
+                 {ov_txt: 'ov', bs_txt: 'bs'})
+        rng.append([z.tr(a) for a in r.args])
+    if rng[0] != rng[1] or any('?' in t for t in rng[0]):
+        raise TranslatorError(f'row and column ranges differ: {rng}')
+    for nm, term in zip(('range_start', 'range_stop', 'range_step'), rng[0]):
+        out.append(f'Definition gen_{nm} (off n bs ov : Z) : Z := {term}.')
+    # the processing-grid windows, per axis
+    def axis_terms(win):
+        parts = window_parts(win)
+        if parts is None:
+            raise TranslatorError(f'block_pairs: window {U(win)[:160]}')
+        res = []
+        for k in (0, 1):
+            z = ZVec(k, {urow: ('u', '?'), ucol: ('?', 'u'), f'{W}.row_off': ('lo', '?'), f'{W}.col_off': ('?', 'lo'),
+                         f'{W}.height + {W}.row_off': ('hi', '?'), f'{W}.row_off + {W}.height': ('hi', '?'),
+                         f'{W}.width + {W}.col_off': ('?', 'hi'), f'{W}.col_off + {W}.width': ('?', 'hi')}, {ov_txt: 'ov', bs_txt: 'bs'})
+            res.append((z.tr(parts[0]), z.tr(parts[1])))
+        if res[0] != res[1] or '?' in ''.join(res[0]):
+            raise TranslatorError(f'block_pairs: rows and columns are treated differently: {res}')
+        return res[0]
+    ilo, ilen = axis_terms(pin)
+    olo, olen = axis_terms(pout)
+    sig = '(u bs ov lo hi : Z)'
+    out.append(f'Definition gen_in_lo {sig} : Z := {ilo}.')
+    out.append(f'Definition gen_in_len {sig} : Z := {ilen}.')
+    out.append(f'Definition gen_out_lo {sig} : Z := {olo}.')
+    out.append(f'Definition gen_out_len {sig} : Z := {olen}.')
+    # outer flag: any(in_ul <= window ul) or any(in_br >= window br)
+    o = made['ref'][5]
+    oko = False
+    if isinstance(o, ast.BoolOp) and isinstance(o.op, ast.Or) and len(o.values) == 2 and all(isinstance(v, ast.Call) and U(v.func) == 'np.any' for v in o.values):
+        def le(c):
+            # a comparison as (smaller side, larger side) of a <= relation, or None
+            if isinstance(c, ast.Compare) and len(c.ops) == 1 and isinstance(c.ops[0], (ast.LtE, ast.GtE)):
+                return (c.left, c.comparators[0]) if isinstance(c.ops[0], ast.LtE) else (c.comparators[0], c.left)
+            return None
+        c1, c2 = le(o.values[0].args[0]), le(o.values[1].args[0])
+        if c1 is not None and c2 is not None:
+            try:
+                t = []
+                for k in (0, 1):
+                    z = ZVec(k, {urow: ('u', '?'), ucol: ('?', 'u'), f'{W}.row_off': ('lo', '?'), f'{W}.col_off': ('?', 'lo'),
+                                 f'{W}.height + {W}.row_off': ('hi', '?'), f'{W}.row_off + {W}.height': ('hi', '?'),
+                                 f'{W}.width + {W}.col_off': ('?', 'hi'), f'{W}.col_off + {W}.width': ('?', 'hi')}, {ov_txt: 'ov', bs_txt: 'bs'})
+                    t.append((z.tr(c1[0]), z.tr(c1[1]), z.tr(c2[1]), z.tr(c2[0])))
+                oko = t[0] == t[1] and t[0][0] == ilo and t[0][1] == 'lo' and t[0][3] == 'hi'
+                out.append(f'Definition gen_outer_hi_term {sig} : Z := {t[0][2]}.')
+            except TranslatorError:
+                oko = False
+    if not any(l.startswith('Definition gen_outer_hi_term') for l in out):
+        out.append(f'Definition gen_outer_hi_term {sig} : Z := 0.')
+    out.append(f'Definition gen_outer_ok : bool := {"true" if oko else "false"}.     (* outer = any(in_lo <= lo) or any(in_hi >= hi) *)')
+    # the guard: block shape must exceed the overlap
+    gd = [n for n in ast.walk(f) if isinstance(n, ast.If) and any(isinstance(x, ast.Raise) and 'BlockSizeError' in U(x) for x in n.body)]
+    gtxt = canon(fl.text(gd[0].test, gd[0])) if len(gd) == 1 else ''
+    okg = gtxt in (f'np.any({bs_txt} <= {ov_txt})', f'np.any({ov_txt} >= {bs_txt})')
+    out.append('Definition gen_block_guard_ok : bool := %s.      (* raises unless block_shape > overlap on both axes *)' % ('true' if okg else 'false'))
+    # the other grid: input window = the expanded window of the processing input block's bounds; output corners rounded from the processing output corners
+    # (checked as text on the resolved expressions; the float arithmetic itself is covered by the C06 correspondence)
+    ot = canon(U(oin))
+    oki = ot.startswith('utils.expand_window_to_grid(') and '.window(*' in ot and '.window_bounds(' in ot and canon(U(pin)) in ot
+    oo = window_parts(oout)
+    oko2 = False
+    if oo is not None:
+        a, b = canon(U(oo[0])), canon(U(oo[1]))
+        pl = window_parts(pout)
+        lo_t, len_t = canon(U(pl[0])), canon(U(pl[1]))
+        oko2 = a.startswith('np.round(') and a.endswith('.astype(int)') and f'tuple({lo_t}[::-1])' in a and '[::-1]' in a and b.startswith('np.subtract(np.round(') \
+            and b.endswith(f', {a})')
+    out.append(f'Definition gen_other_in_ok : bool := {"true" if oki else "false"}.     (* expand_window_to_grid of the other image window of the bounds of the processing input block *)')
+    out.append(f'Definition gen_other_out_ok : bool := {"true" if oko2 else "false"}.    (* both corners of the processing output block mapped and rounded once each *)')
+
+
+def overlap_part(ut, fu, cm, out):
+    f = find_func(ut, None, 'overlap_for_kernel')
+    fl = Flow(f)
+    rets = [n for n in ast.walk(f) if isinstance(n, ast.Return)]
+    rtxt = canon(fl.text(rets[0].value, rets[0])) if len(rets) == 1 else ''
+    kp = fl.params[0]
+    if rtxt not in (f'tuple(np.ceil(np.array({kp}).astype(int) / 2).astype(int))', f'tuple(np.ceil(np.array({kp}) / 2).astype(int))', f'tuple(np.ceil({kp} / 2).astype(int))'):
+        raise TranslatorError(f'overlap_for_kernel returns {rtxt}')
+    out.append('Definition gen_overlap_for_kernel (k : Z) : Z := - ((- k) / 2).      (* np.ceil(k / 2) *)')
+    # ---- fuse.process: the overlap handed to block_pairs, with partial masking off / on
+    f = find_func(fu, 'RasterFuse', 'process')
+    fl = Flow(f)
+    ks_p = fl.params[3]
+    calls = [n for n in ast.walk(f) if isinstance(n, ast.Call) and U(n.func) == 'self.block_pairs']
+    if not calls:
+        raise TranslatorError('process: no call of self.block_pairs')
+    passed = set()
+    for c in calls:
+        r = fl.resolve(c, fl.stmt_of(c))
+        kwd = {}
+        for k in r.keywords:
+            if k.arg is None and isinstance(k.value, ast.Call) and U(k.value.func) == 'dict':
+                kwd.update({kk.arg: kk.value for kk in k.value.keywords})
+            elif k.arg is None and isinstance(k.value, ast.Dict):
+                kwd.update({kk.value: vv for kk, vv in zip(k.value.keys, k.value.values) if isinstance(kk, ast.Constant)})
+            elif k.arg is not None:
+                kwd[k.arg] = k.value
+            else:
+                raise TranslatorError(f'process: block_pairs arguments {U(r)[:160]}')
+        if r.args or sorted(kwd) != ['max_block_mem', 'overlap']:
+            raise TranslatorError(f'process: block_pairs arguments {sorted(kwd)}')
+        passed.add((U(kwd['overlap']), U(kwd['max_block_mem'])))
+    if len(passed) != 1:
+        raise TranslatorError('process: the calls of block_pairs differ')
+    ov_txt, mem_txt = passed.pop()
+    okmem = mem_txt.endswith("['max_block_mem']") and 'create_block_config' in mem_txt
+    out.append('Definition gen_fuse_passes_overlap : bool := %s.' % ('true' if okmem else 'false'))
+    base = f'utils.overlap_for_kernel({ks_p})'
+
+    def ovz(n):
+        t = U(n)
+        if t == base:
+            return 'gen_overlap_for_kernel k'
+        if isinstance(n, ast.Call) and U(n.func) in ('tuple', 'np.array') and len(n.args) == 1:
+            return ovz(n.args[0])
+        if isinstance(n, ast.BinOp) and isinstance(n.op, ast.Add) and isinstance(n.right, ast.Constant) and isinstance(n.right.value, int):
+            return f'({ovz(n.left)} + {n.right.value})'
+        raise TranslatorError(f'process: overlap expression {t[:160]}')
+    try:
+        both = (ovz(ast.parse(ov_txt, mode='eval').body),) * 2          # not conditional at all
+    except TranslatorError:
+        # a name assigned under `if <config>['mask_partial']`: evaluate for both settings
+        if not ov_txt.isidentifier():
+            raise
+        asg = [s for s in fl.order if isinstance(s, ast.Assign) and len(s.targets) == 1 and U(s.targets[0]) == ov_txt]
+        both = []
+        for flag in (False, True):
+            val = None
+            for s in asg:
+                ok = True
+                for (t, br) in guards(f, fl, s):
+                    if t.endswith("['mask_partial']") and 'create_model_config' in t:
+                        v = flag
+                    elif t.startswith('not ') and t.endswith("['mask_partial']") and 'create_model_config' in t:
+                        v = not flag
+                    else:
+                        raise TranslatorError(f'process: overlap assigned under an unrecognised condition {t[:120]}')
+                    ok = ok and (v == br)
+                if ok:
+                    val = ovz(fl.resolve(s.value, s))
+            if val is None:
+                raise TranslatorError('process: no overlap assignment applies')
+            both.append(val)
+    out.append(f'Definition gen_fuse_overlap (mask_partial : bool) (k : Z) : Z := if mask_partial then {both[1]} else {both[0]}.')
+    # ---- compare.process: no overlap
+    f = find_func(cm, 'RasterCompare', 'process')
+    calls = [c for c in ast.walk(f) if isinstance(c, ast.Call) and U(c.func) == 'self.block_pairs']
+    okc = len(calls) == 1 and not calls[0].args and [k.arg for k in calls[0].keywords] == ['max_block_mem']
+    out.append('Definition gen_compare_no_overlap : bool := %s.' % ('true' if okc else 'false'))
+
+
+def bounded_part(ra, out):
+    f = find_func(ra, 'RasterArray', 'bounded_window_slices')
+    fl = Flow(f)
+    ds_p, win_p = fl.params[0], fl.params[1]
+    rets = [n for n in ast.walk(f) if isinstance(n, ast.Return)]
+    r = fl.resolve(rets[0].value, rets[0]) if len(rets) == 1 else None
+    if not (isinstance(r, ast.Tuple) and len(r.elts) == 2):
+        raise TranslatorError('bounded_window_slices: (window, slices) expected')
+    bw, bs = r.elts
+    if not (isinstance(bw, ast.Call) and U(bw.func) == 'Window.from_slices' and len(bw.args) == 2 and all(isinstance(a, ast.Tuple) and len(a.elts) == 2 for a in bw.args)):
+        raise TranslatorError(f'bounded_window_slices: bounded window {U(bw)[:160]}')
+    if not (isinstance(bs, ast.Tuple) and len(bs.elts) == 2 and all(isinstance(e, ast.Call) and U(e.func) == 'slice' and len(e.args) in (2, 3) for e in bs.elts)):
+        raise TranslatorError(f'bounded_window_slices: slices {U(bs)[:160]}')
+    terms = []
+    for k in (0, 1):
+        z = ZVec(k, {f'{win_p}.row_off': ('off', '?'), f'{win_p}.col_off': ('?', 'off'), f'{win_p}.height': ('len', '?'), f'{win_p}.width': ('?', 'len')},
+                 {f'{ds_p}.shape': 'n'})
+        sl = bs.elts[k]
+        if len(sl.args) == 3 and U(sl.args[2]) != 'None':
+            raise TranslatorError('bounded_window_slices: slice step')
+        terms.append((z.tr(bw.args[k].elts[0]), z.tr(bw.args[k].elts[1]), z.tr(sl.args[0]), z.tr(sl.args[1])))
+    if terms[0] != terms[1] or '?' in ''.join(terms[0]):
+        raise TranslatorError(f'bounded_window_slices: rows and columns are treated differently {terms}')
+    for nm, t in zip(('bounded_ul', 'bounded_br', 'bounded_start', 'bounded_stop'), terms[0]):
+        out.append(f'Definition gen_{nm} (n off len : Z) : Z := {t}.')
+
+
+def layout_part(fu, ut, out):
+    f = find_func(fu, 'RasterFuse', '_process_block')
+    fl = Flow(f, inline=module_inliner(fu, 'RasterFuse', keep=('read', 'block_pairs')))
+    bp, md, cim, pim = fl.params[1:5]
+    writes = fl.calls(lambda c: isinstance(c.func, ast.Attribute) and c.func.attr == 'to_rio_dataset')
+    corr = [w for w in writes if w.args and U(w.args[0]) == cim]
+    par = [w for w in writes if w.args and U(w.args[0]) == pim]
+    if len(corr) != 1 or len(par) != 1 or len(writes) != 2:
+        raise TranslatorError(f'_process_block: expected one corrected and one parameter write, found {[U(w)[:80] for w in writes]}')
+    ck = {k.arg: k.value for k in corr[0].keywords}
+    pk = {k.arg: k.value for k in par[0].keywords}
+    okc = sorted(ck) == ['indexes', 'window'] and U(ck['indexes']) == f'{bp}.band_i + 1' and U(ck['window']) == f'{bp}.src_out_block'
+    out.append(f'Definition gen_corr_write_ok : bool := {"true" if okc else "false"}.     (* band band_i + 1, source output window *)')
+    if sorted(pk) != ['indexes', 'window']:
+        raise TranslatorError('_process_block: parameter write arguments')
+    fit_txt = U(par[0].func.value)
+    z = ZExprN({f'np.arange({fit_txt}.count)': 'k', 'len(self.src_bands)': 'n', f'{bp}.band_i': 'i'})
+    out.append(f'Definition gen_param_index (n i k : Z) : Z := {z.tr(pk["indexes"])}.')
+    pob = pk['window']
+
+    def chosen(grid):
+        if not (isinstance(pob, ast.IfExp) and isinstance(pob.test, ast.Compare) and len(pob.test.ops) == 1 and U(pob.test.left) == 'self.proc_crs'
+                and U(pob.test.comparators[0]) in ('ProcCrs.ref', 'ProcCrs.src') and isinstance(pob.test.ops[0], (ast.Eq, ast.NotEq))):
+            raise TranslatorError(f'param_out_block: unrecognised selection {U(pob)[:160]}')
+        eq = U(pob.test.comparators[0]) == 'ProcCrs.' + grid
+        truth = eq if isinstance(pob.test.ops[0], ast.Eq) else not eq
+        return U(pob.body if truth else pob.orelse)
+    okp = chosen('ref') == f'{bp}.ref_out_block' and chosen('src') == f'{bp}.src_out_block'
+    out.append(f'Definition gen_param_write_ok : bool := {"true" if okp else "false"}.    (* all parameter bands, processing-grid output window *)')
+
+
+class ZExprN:
     def __init__(self, names):
         self.names = names
 
     def tr(self, n):
-        txt = ast.unparse(n)
+        txt = U(n)
         if txt in self.names:
             return self.names[txt]
         if isinstance(n, ast.Constant) and isinstance(n.value, int):
@@ -57,134 +411,24 @@ class ZExpr:
             if op is None:
                 raise TranslatorError(f'unsupported operator in {txt}')
             return f'({self.tr(n.left)} {op} {self.tr(n.right)})'
-        if isinstance(n, ast.Call) and ast.unparse(n.func) in ('np.fmax', 'np.fmin') and len(n.args) == 2:
-            return f'(Z.{"max" if ast.unparse(n.func) == "np.fmax" else "min"} {self.tr(n.args[0])} {self.tr(n.args[1])})'
-        raise TranslatorError(f'unsupported expression: {txt}')
+        raise TranslatorError(f'unsupported expression: {txt[:160]}')
 
 
-VEC = {'ul': 'u', 'br': 'br', 'block_shape': 'bs', 'overlap': 'ov', 'proc_win_ul': 'lo', 'proc_win_br': 'hi',
-       'in_ul': 'ilo', 'in_br': 'ihi', 'out_ul': 'olo', 'out_br': 'ohi'}
+VEC = {}
 SIG = '(u bs ov lo hi : Z)'
 
 
 def generate():
     out = []
     rp = ast.parse((REPO / 'homonim' / 'raster_pair.py').read_text())
-    f = find_func(rp, 'RasterPairReader', 'block_pairs')
-    # ---- the two ranges
-    rng = {}
-    for tgt, (off, n, idx) in (('ul_row_range', ('proc_win.row_off', 'proc_win.height', '0')), ('ul_col_range', ('proc_win.col_off', 'proc_win.width', '1'))):
-        v = one_assign(f, tgt)
-        if not (isinstance(v, ast.Call) and ast.unparse(v.func) == 'range' and len(v.args) == 3):
-            raise TranslatorError(f'{tgt} is not range(start, stop, step)')
-        names = {off: 'off', n: 'n', f'overlap[{idx}]': 'ov', f'block_shape[{idx}]': 'bs'}
-        rng[tgt] = [ZExpr(names).tr(a) for a in v.args]
-    if rng['ul_row_range'] != rng['ul_col_range']:
-        raise TranslatorError(f'row and column ranges differ: {rng}')
-    for nm, term in zip(('range_start', 'range_stop', 'range_step'), rng['ul_row_range']):
-        out.append(f'Definition gen_{nm} (off n bs ov : Z) : Z := {term}.')
-    # loop order: product(ul_row_range, ul_col_range), bands outermost
-    prod = [n for n in ast.walk(f) if isinstance(n, ast.For) and ast.unparse(n.iter) == 'product(ul_row_range, ul_col_range)']
-    band = [n for n in ast.walk(f) if isinstance(n, ast.For) and ast.unparse(n.iter) == 'range(len(self._src_bands))']
-    ok_order = len(prod) == 1 and len(band) == 1 and any(m is prod[0] for m in ast.walk(band[0])) and ast.unparse(prod[0].target) == '(ul_row, ul_col)'
-    out.append(f'Definition gen_rows_outer_bands_outermost : bool := {"true" if ok_order else "false"}.')
-    if ast.unparse(one_assign(f, 'ul')) != 'np.array((ul_row, ul_col))':
-        raise TranslatorError('ul is not np.array((ul_row, ul_col))')
-    # ---- corners (vector expressions, component-wise)
-    z = ZExpr(VEC)
-    for tgt, nm in (('br', 'br'), ('in_ul', 'in_lo'), ('in_br', 'in_hi'), ('out_ul', 'out_lo'), ('out_br', 'out_hi')):
-        term = z.tr(one_assign(f, tgt))
-        out.append(f'Definition gen_{nm} {"(u bs ov lo hi br : Z)" if tgt != "br" else SIG} : Z := {term}.')
-    # window corners
-    ul = ast.unparse(one_assign(f, 'proc_win_ul'))
-    br = ast.unparse(one_assign(f, 'proc_win_br'))
-    ok = ul == 'np.array((proc_win.row_off, proc_win.col_off))' and br in (
-        'np.array((proc_win.height + proc_win.row_off, proc_win.width + proc_win.col_off))',
-        'np.array((proc_win.row_off + proc_win.height, proc_win.col_off + proc_win.width))')
-    out.append(f'Definition gen_window_corners_ok : bool := {"true" if ok else "false"}.     (* lo = off, hi = off + n, rows then columns *)')
-    # windows from corners: Window(col_off, row_off, width, height) = (*ul[::-1], *(br - ul)[::-1])
-    wi = ast.unparse(one_assign(f, 'proc_in_block'))
-    wo = ast.unparse(one_assign(f, 'proc_out_block'))
-    okw = wi == 'Window(*in_ul[::-1], *np.subtract(in_br, in_ul)[::-1])' and wo == 'Window(*out_ul[::-1], *np.subtract(out_br, out_ul)[::-1])'
-    out.append(f'Definition gen_windows_from_corners_ok : bool := {"true" if okw else "false"}.')
-    outer = ast.unparse(one_assign(f, 'outer'))
-    out.append('Definition gen_outer_ok : bool := %s.' % ('true' if outer == 'np.any(in_ul <= proc_win_ul) or np.any(in_br >= proc_win_br)' else 'false'))
-    # the guard: block shape must exceed the overlap
-    guard = [n for n in ast.walk(f) if isinstance(n, ast.If) and any(isinstance(x, ast.Raise) and 'BlockSizeError' in ast.unparse(x) for x in ast.walk(n))]
-    gtxt = ast.unparse(guard[0].test) if len(guard) == 1 else ''
-    out.append('Definition gen_block_guard_ok : bool := %s.      (* raises unless block_shape > overlap on both axes *)' % ('true' if gtxt == 'np.any(block_shape <= overlap)' else 'false'))
-    # ---- overlap_for_kernel
     ut = ast.parse((REPO / 'homonim' / 'utils.py').read_text())
-    f = find_func(ut, None, 'overlap_for_kernel')
-    ret = [n for n in ast.walk(f) if isinstance(n, ast.Return)]
-    rtxt = ast.unparse(ret[0].value) if len(ret) == 1 else ''
-    if rtxt != "tuple(np.ceil(kernel_shape / 2).astype('int'))":
-        raise TranslatorError(f'overlap_for_kernel returns {rtxt}')
-    out.append('Definition gen_overlap_for_kernel (k : Z) : Z := - ((- k) / 2).      (* np.ceil(k / 2) *)')
-    # ---- fuse.process: the overlap handed to block_pairs
     fu = ast.parse((REPO / 'homonim' / 'fuse.py').read_text())
-    f = find_func(fu, 'RasterFuse', 'process')
-    assigns = [(n.lineno, ast.unparse(n.value), n) for n in ast.walk(f) if isinstance(n, ast.Assign) and ast.unparse(n.targets[0]) == 'overlap']
-    assigns.sort()
-    if not assigns or assigns[0][1] != 'utils.overlap_for_kernel(kernel_shape)':
-        raise TranslatorError('process: overlap is not utils.overlap_for_kernel(kernel_shape)')
-    extra = 0
-    if len(assigns) == 2:
-        parent = [n for n in ast.walk(f) if isinstance(n, ast.If) and any(m is assigns[1][2] for m in n.body)]
-        if len(parent) == 1 and ast.unparse(parent[0].test) == "model_config['mask_partial']" and assigns[1][1] == 'tuple(np.array(overlap) + 1)' and not parent[0].orelse:
-            extra = 1
-        else:
-            raise TranslatorError(f'process: unrecognised second overlap assignment: {assigns[1][1]}')
-    elif len(assigns) > 2:
-        raise TranslatorError('process: more than two overlap assignments')
-    out.append(f'Definition gen_fuse_overlap (mask_partial : bool) (k : Z) : Z := gen_overlap_for_kernel k + (if mask_partial then {extra} else 0).')
-    bpa = ast.unparse(one_assign(f, 'block_pair_args'))
-    out.append('Definition gen_fuse_passes_overlap : bool := %s.' % ('true' if bpa == "dict(overlap=overlap, max_block_mem=block_config['max_block_mem'])" else 'false'))
-    # ---- compare.process: no overlap
     cm = ast.parse((REPO / 'homonim' / 'compare.py').read_text())
-    f = find_func(cm, 'RasterCompare', 'process')
-    calls = [ast.unparse(c) for c in ast.walk(f) if isinstance(c, ast.Call) and ast.unparse(c.func) == 'self.block_pairs']
-    out.append('Definition gen_compare_no_overlap : bool := %s.' % ('true' if calls == ["self.block_pairs(max_block_mem=config['max_block_mem'])"] else 'false'))
-    # ---- raster_array.bounded_window_slices (one axis: window offset / length, dataset size n)
     ra = ast.parse((REPO / 'homonim' / 'raster_array.py').read_text())
-    f = find_func(ra, 'RasterArray', 'bounded_window_slices')
-    if ast.unparse(one_assign(f, 'win_ul')) != 'np.array((window.row_off, window.col_off))' or \
-            ast.unparse(one_assign(f, 'win_br')) != 'win_ul + np.array((window.height, window.width))':
-        raise TranslatorError('bounded_window_slices: window corners')
-    names = {'win_ul': 'off', 'win_br': '(off + len)', '(0, 0)': '0', 'rio_dataset.shape': 'n', 'bounded_ul': 'bul', 'bounded_br': 'bbr',
-             'bounded_start': 'st'}
-    z = ZExpr(names)
-    out.append(f'Definition gen_bounded_ul (n off len : Z) : Z := {z.tr(one_assign(f, "bounded_ul"))}.')
-    out.append(f'Definition gen_bounded_br (n off len bul : Z) : Z := {z.tr(one_assign(f, "bounded_br"))}.')
-    out.append(f'Definition gen_bounded_start (n off len bul bbr : Z) : Z := {z.tr(one_assign(f, "bounded_start"))}.')
-    out.append(f'Definition gen_bounded_stop (n off len bul bbr st : Z) : Z := {z.tr(one_assign(f, "bounded_stop"))}.')
-    bw = ast.unparse(one_assign(f, 'bounded_window'))
-    bs = ast.unparse(one_assign(f, 'bounded_slices')).replace(' ', '')
-    okb = bw == 'Window.from_slices((bounded_ul[0], bounded_br[0]), (bounded_ul[1], bounded_br[1]))' and \
-        bs == '(slice(bounded_start[0],bounded_stop[0],None),slice(bounded_start[1],bounded_stop[1],None))'
-    out.append(f'Definition gen_bounded_results_ok : bool := {"true" if okb else "false"}.')
-    # ---- parameter image layout: band index of parameter k of matched band i; labels; validator suffixes
-    f = find_func(fu, 'RasterFuse', '_process_block')
-    idx = one_assign(f, 'indexes')
-    z = ZExpr({'np.arange(param_ra.count)': 'k', 'len(self.src_bands)': 'n', 'block_pair.band_i': 'i'})
-    out.append(f'Definition gen_param_index (n i k : Z) : Z := {z.tr(idx)}.')
-    call = [c for c in ast.walk(f) if isinstance(c, ast.Call) and ast.unparse(c.func) == 'param_ra.to_rio_dataset']
-    okp = len(call) == 1 and ast.unparse(call[0]) == 'param_ra.to_rio_dataset(param_im, indexes=indexes, window=param_out_block)'
-    # which output window for which processing grid: evaluate the conditional for both grids (any equivalent way of writing the test is fine)
-    pob = one_assign(f, 'param_out_block')
-
-    def chosen(grid):
-        if not (isinstance(pob, ast.IfExp) and isinstance(pob.test, ast.Compare) and len(pob.test.ops) == 1 and ast.unparse(pob.test.left) == 'self.proc_crs'
-                and ast.unparse(pob.test.comparators[0]) in ('ProcCrs.ref', 'ProcCrs.src') and isinstance(pob.test.ops[0], (ast.Eq, ast.NotEq))):
-            raise TranslatorError(f'param_out_block: unrecognised selection {ast.unparse(pob)}')
-        eq = ast.unparse(pob.test.comparators[0]) == 'ProcCrs.' + grid
-        truth = eq if isinstance(pob.test.ops[0], ast.Eq) else not eq
-        return ast.unparse(pob.body if truth else pob.orelse)
-    okp = okp and chosen('ref') == 'block_pair.ref_out_block' and chosen('src') == 'block_pair.src_out_block'
-    call = [c for c in ast.walk(f) if isinstance(c, ast.Call) and ast.unparse(c.func) == 'corr_ra.to_rio_dataset']
-    okc = len(call) == 1 and ast.unparse(call[0]) == 'corr_ra.to_rio_dataset(corr_im, indexes=block_pair.band_i + 1, window=block_pair.src_out_block)'
-    out.append(f'Definition gen_param_write_ok : bool := {"true" if okp else "false"}.    (* all parameter bands, processing-grid output window *)')
-    out.append(f'Definition gen_corr_write_ok : bool := {"true" if okc else "false"}.     (* band band_i + 1, source output window *)')
+    block_pairs_part(rp, out)
+    overlap_part(ut, fu, cm, out)
+    bounded_part(ra, out)
+    layout_part(fu, ut, out)
     f = find_func(fu, 'RasterFuse', '_set_param_metadata')
     loops = [n for n in ast.walk(f) if isinstance(n, ast.For) and ast.unparse(n.iter) == 'zip(range(bi, im.count, num_src_bands), param_names)']
     names_ok = ast.unparse(one_assign(f, 'param_names')) == "['GAIN', 'OFFSET', 'R2']" and ast.unparse(one_assign(f, 'num_src_bands')) == 'len(self.src_bands)'
@@ -199,7 +443,7 @@ def generate():
     km = ast.parse((REPO / 'homonim' / 'kernel_model.py').read_text())
     f = find_func(km, 'KernelModel', '_full_coverage_mask')
     se = one_assign(f, 'se')
-    z = ZExpr({'np.array(self._kernel_shape[::-1])': 'k'})
+    z = ZExprN({'np.array(self._kernel_shape[::-1])': 'k'})
     if not (isinstance(se, ast.Call) and ast.unparse(se.func) == 'cv.getStructuringElement' and ast.unparse(se.args[0]) == 'cv.MORPH_RECT'
             and isinstance(se.args[1], ast.Call) and ast.unparse(se.args[1].func) == 'tuple'):
         raise TranslatorError('_full_coverage_mask: structuring element')
@@ -233,18 +477,22 @@ def generate():
     # ---- utils.same_orientation_crs: which image is viewed through a WarpedVRT, as boolean functions of
     #      (source north-up, reference north-up, same CRS, processing grid = source)
     f = find_func(ut, None, 'same_orientation_crs')
+    fl = Flow(f, inline=module_inliner(ut, None, keep=('north_up',)))
+    sI, rI, pC = fl.params[0], fl.params[1], fl.params[2]
 
     def btr(n):
-        t = ast.unparse(n)
-        if t == 'same_crs':
+        t = U(n)
+        if t in (f'{sI}.crs == {rI}.crs', f'{rI}.crs == {sI}.crs'):
             return 'same'
-        if t == 'north_up(src_im)':
+        if t in (f'{sI}.crs != {rI}.crs', f'{rI}.crs != {sI}.crs'):
+            return '(negb same)'
+        if t == f'north_up({sI})':
             return 'snu'
-        if t == 'north_up(ref_im)':
+        if t == f'north_up({rI})':
             return 'rnu'
-        if t == 'proc_crs == ProcCrs.src':
+        if t == f'{pC} == ProcCrs.src':
             return 'psrc'
-        if t == 'proc_crs != ProcCrs.src':
+        if t == f'{pC} != ProcCrs.src':
             return '(negb psrc)'
         if isinstance(n, ast.UnaryOp) and isinstance(n.op, ast.Not):
             return f'(negb {btr(n.operand)})'
@@ -252,21 +500,34 @@ def generate():
             op = ' && ' if isinstance(n.op, ast.And) else ' || '
             return '(' + op.join(btr(v) for v in n.values) + ')'
         raise TranslatorError(f'same_orientation_crs: unsupported condition {t}')
-    if ast.unparse(one_assign(f, 'same_crs')) != 'src_im.crs == ref_im.crs':
-        raise TranslatorError('same_orientation_crs: same_crs')
     seen = {}
-    for n in f.body:
-        if isinstance(n, ast.If):
-            body = [ast.unparse(x) for x in n.body]
-            if len(body) != 1 or n.orelse:
-                raise TranslatorError('same_orientation_crs: unexpected if body')
-            m = {'src_im = WarpedVRT(src_im, crs=src_im.crs, resampling=resampling)': 'src_flip', 'ref_im = WarpedVRT(ref_im, crs=ref_im.crs, resampling=resampling)': 'ref_flip',
-                 'src_im = WarpedVRT(src_im, crs=ref_im.crs, resampling=resampling)': 'src_to_ref_crs', 'ref_im = WarpedVRT(ref_im, crs=src_im.crs, resampling=resampling)': 'ref_to_src_crs'}
-            if body[0] not in m or m[body[0]] in seen:
-                raise TranslatorError(f'same_orientation_crs: unrecognised action {body[0]}')
-            seen[m[body[0]]] = btr(n.test)
+    for st in fl.order:
+        if isinstance(st, ast.Assign) and len(st.targets) == 1 and U(st.targets[0]) in (sI, rI):
+            v = fl.value(st)
+            if not (isinstance(v, ast.Call) and U(v.func) == 'WarpedVRT' and len(v.args) == 1 and U(v.args[0]) == U(st.targets[0])):
+                raise TranslatorError(f'same_orientation_crs: unrecognised assignment {U(st)[:160]}')
+            kwv = {k.arg: U(k.value) for k in v.keywords}
+            if sorted(kwv) != ['crs', 'resampling'] or kwv['resampling'] != 'Resampling.bilinear' or kwv['crs'] not in (f'{sI}.crs', f'{rI}.crs'):
+                raise TranslatorError(f'same_orientation_crs: WarpedVRT arguments {kwv}')
+            who = 'src' if U(st.targets[0]) == sI else 'ref'
+            crs_of = 'src' if kwv['crs'] == f'{sI}.crs' else 'ref'
+            act = f'{who}_flip' if who == crs_of else f'{who}_to_{crs_of}_crs'
+            conds = []
+            for node in [n for n in ast.walk(f) if isinstance(n, ast.If)]:
+                in_body = any(st is m for b_ in node.body for m in ast.walk(b_))
+                in_else = any(st is m for b_ in node.orelse for m in ast.walk(b_))
+                if in_body or in_else:
+                    c = btr(fl.resolve(node.test, node))
+                    conds.append(c if in_body else f'(negb {c})')
+            if act in seen or not conds:
+                raise TranslatorError(f'same_orientation_crs: action {act}')
+            seen[act] = conds[0] if len(conds) == 1 else '(' + ' && '.join(conds) + ')'
     if sorted(seen) != ['ref_flip', 'ref_to_src_crs', 'src_flip', 'src_to_ref_crs']:
         raise TranslatorError(f'same_orientation_crs: actions {sorted(seen)}')
+    # the two flips come before the two changes of coordinate system
+    rets = [n for n in ast.walk(f) if isinstance(n, ast.Return)]
+    if len(rets) != 1 or U(rets[0].value) not in (f'({sI}, {rI})', f'{sI}, {rI}'):
+        raise TranslatorError('same_orientation_crs: returns')
     for k2 in ('src_flip', 'ref_flip', 'src_to_ref_crs', 'ref_to_src_crs'):
         out.append(f'Definition gen_vrt_{k2} (snu rnu same psrc : bool) : bool := {seen[k2]}.')
     # the corrected image's profile starts from the (possibly warped) source's profile
@@ -283,11 +544,15 @@ def generate():
     f = find_func(mp, 'MatchedPairReader', '_get_band_info')
     rgb = one_assign(f, 'std_rgb_cws')
     txt = ast.unparse(rgb)
-    if not txt.startswith('dict(zip([ColorInterp.red, ColorInterp.green, ColorInterp.blue], ['):
+    if isinstance(rgb, ast.Dict):
+        pairs = {ast.unparse(k_): v_ for k_, v_ in zip(rgb.keys, rgb.values)}
+    elif txt.startswith('dict(zip([') and len(rgb.args) == 1 and len(rgb.args[0].args) == 2:
+        pairs = {ast.unparse(k_): v_ for k_, v_ in zip(rgb.args[0].args[0].elts, rgb.args[0].args[1].elts)}
+    else:
         raise TranslatorError(f'std_rgb_cws: {txt}')
-    vals = [float(ast.literal_eval(e)) for e in rgb.args[0].args[1].elts]
-    if len(vals) != 3:
-        raise TranslatorError('std_rgb_cws: three values expected')
+    if sorted(pairs) != ['ColorInterp.blue', 'ColorInterp.green', 'ColorInterp.red']:
+        raise TranslatorError(f'std_rgb_cws: keys {sorted(pairs)}')
+    vals = [float(ast.literal_eval(pairs[k_])) for k_ in ('ColorInterp.red', 'ColorInterp.green', 'ColorInterp.blue')]
     for nm, v in zip(('red', 'green', 'blue'), vals):
         out.append(f'Definition gen_std_cw_{nm} : float := {v.hex()}%float.')
     use = [n for n in ast.walk(f) if isinstance(n, ast.If) and ast.unparse(n.test) == 'len(non_alpha_bands) == 3']
@@ -296,8 +561,12 @@ def generate():
     fm = find_func(mp, 'MatchedPairReader', '_match_pair_bands')
     over = [ast.unparse(n.test) for n in ast.walk(fm) if isinstance(n, ast.If) and '_max_rel_wavelength_diff' in ast.unparse(n.test)]
     out.append('Definition gen_over_tolerance_is_strict_any : bool := %s.' % ('true' if over == ['any(match_dist > MatchedPairReader._max_rel_wavelength_diff)'] else 'false'))
-    rd = ast.unparse(one_assign([g for g in ast.walk(fm) if isinstance(g, ast.FunctionDef) and g.name == '_match_pair_bands'][0], 'rel_dist'))
-    out.append('Definition gen_rel_dist_by_source : bool := %s.' % ('true' if rd == 'abs_dist / src_wavelengths[:, np.newaxis]' else 'false'))
+    flm = Flow(fm)
+    # the distance matrix handed to the greedy matcher: |src - ref| / src
+    gcall = [c for c in ast.walk(fm) if isinstance(c, ast.Call) and ast.unparse(c.func) in ('greedy_match', 'self._greedy_match', 'MatchedPairReader._greedy_match') and c.args]
+    rd = flm.text(gcall[0].args[0], flm.stmt_of(gcall[0])) if len(gcall) == 1 else ''
+    okrd = rd in ('np.abs(src_wavelengths[:, np.newaxis] - ref_wavelengths[np.newaxis, :]) / src_wavelengths[:, np.newaxis]',)
+    out.append('Definition gen_rel_dist_by_source : bool := %s.' % ('true' if okrd else 'false'))
     return out
 
 
@@ -315,7 +584,7 @@ def main():
     try:
         text = HEADER % 'false' + '\n'.join(generate()) + '\n'
         ok = True
-    except (TranslatorError, SyntaxError, OSError, IndexError, KeyError) as ex:
+    except (TranslatorError, SyntaxError, OSError, IndexError, KeyError, AttributeError, TypeError, ValueError) as ex:
         msg = str(ex).replace('(*', '( *').replace('*)', '* )')
         text = HEADER % 'true' + f'(* translator error: {msg} *)\n'
         ok = False
